@@ -19,8 +19,8 @@ fn sweep_len<const N: usize>(b: &[u8; N], lo: usize, hi: usize, sel: usize) {
     while n <= hi {
         if sel == n {
             let r = Address::from_bytes(&b[..n]);
-            kani::cover!(r.is_ok() && n == hi, "longest input accepted");
-            kani::cover!(r.is_err() && n == lo, "shortest input rejected");
+            kani::cover!(r.is_ok(), "some input accepted");
+            kani::cover!(r.is_err(), "some input rejected");
             core::mem::forget(r);
         }
         n += 1;
@@ -30,17 +30,22 @@ fn sweep_len<const N: usize>(b: &[u8; N], lo: usize, hi: usize, sel: usize) {
 macro_rules! addr_total {
     ($name:ident, $t:expr) => {
         #[kani::proof]
-        #[kani::unwind(61)]
+        #[kani::unwind(18)]
         #[kani::stub(std::fmt::format, crate::stubs::fmt_format_stub)]
         fn $name() {
             let mut b: [u8; 58] = kani::any();
             let sel: usize = kani::any();
             let which: bool = kani::any();
             if which {
-                // every length 1..=58, network nibble 1
-                kani::assume(sel >= 1 && sel <= 58);
+                // the lengths around every length test of the parsers (payload < 28 / < 29 / < 56), network nibble 1
                 b[0] = ($t << 4) | 1;
-                sweep_len(&b, 1, 58, sel);
+                if sel < 3 {
+                    sweep_len(&b, 1, 2, sel);
+                } else if sel < 31 {
+                    sweep_len(&b, 28, 30, sel);
+                } else {
+                    sweep_len(&b, 56, 58, sel);
+                }
             } else {
                 // every network nibble, full length
                 kani::assume(sel < 16);
@@ -59,7 +64,7 @@ macro_rules! addr_total {
     };
 }
 
-// bound: arbitrary bytes after a constant header; header high nibble concrete per harness (hash-only types 0-3, 6, 7, 14, 15); (every length 1..=58 with network nibble 1) and (every network nibble 0..=15 at length 58); unwind 61
+// bound: arbitrary bytes after a constant header; header high nibble concrete per harness (hash-only types 0-3, 6, 7, 14, 15); (lengths 1, 2, 28, 29, 30, 56, 57, 58 -- both sides of every length test in the parsers -- with network nibble 1) and (every network nibble 0..=15 at length 58); unwind 18
 addr_total!(c09_q_addr_t0, 0u8);
 addr_total!(c09_t_addr_t1, 1u8);
 addr_total!(c09_t_addr_t2, 2u8);
@@ -87,7 +92,8 @@ macro_rules! addr_total_ptr {
 }
 // bound: header byte constant (0x41 / 0x5f; the low nibble only feeds parse_network, covered by the hash-only harnesses), arbitrary bytes, every length in the stated window (pointer area 0..=11 bytes: each varuint read stops after at most 10 groups); unwind 14
 // stub: <&[u8] as std::io::Read>::read_exact -> model with the same effect, EOF error built as io::Error::from(ErrorKind::UnexpectedEof) (see stubs.rs)
-addr_total_ptr!(c09_q_addr_t4_len28_33, 0x41u8, 28, 33);
+addr_total_ptr!(c09_q_addr_t4_len30_32, 0x41u8, 30, 32);
+addr_total_ptr!(c09_t_addr_t4_len28_33, 0x41u8, 28, 33);
 addr_total_ptr!(c09_t_addr_t4_len34_40, 0x41u8, 34, 40);
 addr_total_ptr!(c09_t_addr_t5_len28_40, 0x5fu8, 28, 40);
 
@@ -107,7 +113,8 @@ macro_rules! addr_total_byron {
     };
 }
 // bound: Address::from_bytes, header byte constant 0x80..0x8f (CBOR array head of k elements), arbitrary bytes, every length 1..=8 (quick, 0x82) / 1..=12 (thorough); unwind 14
-addr_total_byron!(c09_q_addr_t8_82_len8, 0x82u8, 1, 8);
+addr_total_byron!(c09_q_addr_t8_82_len5_6, 0x82u8, 5, 6);
+addr_total_byron!(c09_t_addr_t8_82_len8, 0x82u8, 1, 8);
 addr_total_byron!(c09_t_addr_t8_82_len12, 0x82u8, 1, 12);
 addr_total_byron!(c09_t_addr_t8_80_len12, 0x80u8, 1, 12);
 addr_total_byron!(c09_t_addr_t8_83_len12, 0x83u8, 1, 12);
@@ -147,13 +154,20 @@ fn c09_q_addr_undefined_types() {
     let mut t: u8 = 9;
     while t <= 13 {
         if sel == t {
-            b[0] = if lo { t << 4 } else { (t << 4) | 15 };
-            let r = Address::from_bytes(&b);
-            assert!(r.is_err(), "undefined header types are rejected");
-            core::mem::forget(r);
-            let r = Address::from_bytes(&b[..1]);
-            assert!(r.is_err(), "undefined header types are rejected (header only)");
-            core::mem::forget(r);
+            if lo {
+                b[0] = t << 4;
+                let r = Address::from_bytes(&b);
+                assert!(r.is_err(), "undefined header types are rejected");
+                core::mem::forget(r);
+                let r = Address::from_bytes(&b[..1]);
+                assert!(r.is_err(), "undefined header types are rejected (header only)");
+                core::mem::forget(r);
+            } else {
+                b[0] = (t << 4) | 15;
+                let r = Address::from_bytes(&b);
+                assert!(r.is_err(), "undefined header types are rejected");
+                core::mem::forget(r);
+            }
         }
         t += 1;
     }
@@ -170,9 +184,7 @@ fn c09_q_addr_undefined_types() {
 fn c09_v_twin() {
     let mut b: [u8; 30] = kani::any();
     b[0] = 0x61;
-    let n: usize = kani::any();
-    kani::assume(n <= 30);
-    let r = Address::from_bytes(&b[..n]);
+    let r = Address::from_bytes(&b[..28]);
     assert!(r.is_ok(), "twin: must fail");
     core::mem::forget(r);
 }
